@@ -39,6 +39,9 @@ pub struct Graph {
     pub is_enum: Vec<bool>,
     /// (from, to, wrapper)
     pub edges: Vec<(usize, usize, usize)>,
+    /// per enum node: 0 = no field-less enumerator, 1 = one before the enumerators with fields,
+    /// 2 = one after them, 3 = one in between (after the first)
+    pub leaf: Vec<u8>,
 }
 
 fn wrap(target: &str, wrapper: usize, aliases: &mut Vec<DefM>) -> TypeM {
@@ -77,9 +80,21 @@ pub fn graph_program(g: &Graph) -> (Program, BTreeMap<String, (usize, usize)>) {
         let di = defs.len();
         if g.is_enum[i] {
             let mut enumerators = Vec::new();
+            let leaf_mode = g.leaf.get(i).copied().unwrap_or(0);
+            let leaf = |n: usize| EnumeratorM {
+                pre: Prelude::default(),
+                name: format!("Leaf{n}"),
+                fields: None,
+                value: None,
+                effective: n as i128,
+            };
+            if leaf_mode == 1 && !out.is_empty() {
+                enumerators.push(leaf(0));
+            }
             for (k, e) in out.iter().enumerate() {
                 let ty = wrap(&format!("N{}", e.1), e.2, &mut aliases);
-                fields_of.insert(format!("f0/d{di}/m{k}/m0"), (i, e.1));
+                let at = enumerators.len();
+                fields_of.insert(format!("f0/d{di}/m{at}/m0"), (i, e.1));
                 enumerators.push(EnumeratorM {
                     pre: Prelude::default(),
                     name: format!("V{k}"),
@@ -90,8 +105,16 @@ pub fn graph_program(g: &Graph) -> (Program, BTreeMap<String, (usize, usize)>) {
                         ty,
                     }]),
                     value: None,
-                    effective: k as i128,
+                    effective: at as i128,
                 });
+                if leaf_mode == 3 && k == 0 {
+                    let n = enumerators.len();
+                    enumerators.push(leaf(n));
+                }
+            }
+            if leaf_mode == 2 && !out.is_empty() {
+                let n = enumerators.len();
+                enumerators.push(leaf(n));
             }
             if enumerators.is_empty() {
                 enumerators.push(EnumeratorM {
@@ -262,6 +285,7 @@ pub fn containment_oracle(cx: &mut CaseCtx, g: &Graph) -> CaseResult {
 
 /// n <= 3: index -> (n, edge bitmask, kinds, wrapper)
 pub fn small_graph(mut idx: u64) -> Graph {
+    let idx0 = idx;
     // blocks: n=1: 2*2*10, n=2: 16*4*10, n=3: 512*8*10
     let sizes = [2u64 * 2 * 10, 16 * 4 * 10, 512 * 8 * 10];
     let mut n = 1;
@@ -289,6 +313,8 @@ pub fn small_graph(mut idx: u64) -> Graph {
         n,
         is_enum: (0..n).map(|i| kinds >> i & 1 == 1).collect(),
         edges,
+        // an extra, sampled dimension (the enumeration itself is unchanged)
+        leaf: (0..n).map(|i| (hash64(&("leaf", idx0, i)) % 4) as u8).collect(),
     }
 }
 
@@ -312,6 +338,7 @@ fn graph4(idx: u64) -> Graph {
         n: 4,
         is_enum: (0..4).map(|i| h >> (60 + i) & 1 == 1).collect(),
         edges,
+        leaf: (0..4).map(|i| (hash64(&("leaf4", idx, i)) % 4) as u8).collect(),
     }
 }
 
@@ -330,38 +357,49 @@ fn random_graph(u: &mut Unstructured) -> Graph {
         n,
         is_enum: (0..n).map(|_| pick(u, 3) == 0).collect(),
         edges,
+        leaf: (0..n).map(|_| pick(u, 4) as u8).collect(),
     }
 }
 
 // ---- alias graphs ---------------------------------------------------------------------------
 
-/// <= 4 aliases, each target one of: int32, alias j, Sequence<alias j>, Dictionary<string, alias j>
+/// <= 4 aliases, each target one of 8 forms over int32 / alias j (see `ALIAS_FORMS`)
+pub const ALIAS_FORMS: [&str; 8] = [
+    "int32",
+    "alias j",
+    "Sequence<alias j>",
+    "Dictionary<string, alias j?>",
+    "Result<alias j, bool>",
+    "Result<bool, alias j>",
+    "Result<bool, Sequence<alias j>>",
+    "Sequence<Result<alias j?, string>>",
+];
+
 pub fn alias_program(mut idx: u64) -> (Program, bool) {
     let n = 1 + (idx % 4) as usize;
     idx /= 4;
     let mut defs = Vec::new();
     let mut edges: BTreeMap<String, BTreeSet<String>> = BTreeMap::new();
     for i in 0..n {
-        let form = (idx % 4) as usize;
-        idx /= 4;
+        let form = (idx % 8) as usize;
+        idx /= 8;
         let j = (idx % n as u64) as usize;
         idx /= 4;
         let target = format!("A{j}");
         let e = edges.entry(format!("A{i}")).or_default();
+        if form != 0 {
+            e.insert(target.clone());
+        }
+        let t = TypeM::named(&target);
         let ty = match form {
             0 => TypeM::prim("int32"),
-            1 => {
-                e.insert(target.clone());
-                TypeM::named(&target)
-            }
-            2 => {
-                e.insert(target.clone());
-                TypeM::seq(TypeM::named(&target))
-            }
-            _ => {
-                e.insert(target.clone());
-                TypeM::dict(TypeM::prim("string"), TypeM::named(&target).opt())
-            }
+            1 => t,
+            2 => TypeM::seq(t),
+            3 => TypeM::dict(TypeM::prim("string"), t.opt()),
+            4 => TypeM::result(t, TypeM::prim("bool")),
+            5 => TypeM::result(TypeM::prim("bool"), t),
+            6 => TypeM::result(TypeM::prim("bool"), TypeM::seq(t)),
+            _ => TypeM::seq(TypeM::result(t.opt(), TypeM::prim("string"))),
         };
         defs.push(DefM::Alias(AliasM {
             pre: Prelude::default(),
@@ -399,7 +437,7 @@ pub fn alias_program(mut idx: u64) -> (Program, bool) {
     )
 }
 
-pub const ALIAS_TOTAL: u64 = 4 * 16 * 16 * 16 * 16;
+pub const ALIAS_TOTAL: u64 = 4 * 32 * 32 * 32 * 32;
 
 fn alias_case(cx: &mut CaseCtx, input: Input) -> CaseResult {
     let (p, cyclic) = alias_program(input.index());
@@ -517,7 +555,7 @@ impl Check for C05 {
         "C05"
     }
     fn rule(&self) -> String {
-        format!("families: small = every directed graph (self-loops allowed) over n <= 3 struct/enum nodes x every kind assignment x each of the 10 wrapper forms ({SMALL_TOTAL} programs, exhaustive); graph4 = every edge set over 4 nodes with kinds and mixed wrappers derived from the index (65536, exhaustive in the thorough tier, strided in quick); random = proptest choice sequences -> graphs of 2..10 nodes with multi-edges and mixed wrappers (out-degree <= 2); aliases = every assignment of {{int32, alias j, Sequence<alias j>, Dictionary<string, alias j?>}} to <= 4 aliases ({ALIAS_TOTAL}); inheritance = every base relation over <= 4 interfaces incl. self-loops ({INHERIT_TOTAL}). Oracle: SCC analysis; E032 <=> a node lies on a cycle, every on-cycle node named by a chain reconstructed from note spans, every chain a real closed path of written fields; alias / inheritance loops rejected, acyclic ones accepted. Non-trivial = >= 1 edge through a non-trivial wrapper or >= 2 nodes on a cycle (all alias / inheritance cases count)")
+        format!("families: small = every directed graph (self-loops allowed) over n <= 3 struct/enum nodes x every kind assignment x each of the 10 wrapper forms ({SMALL_TOTAL} programs, exhaustive); graph4 = every edge set over 4 nodes with kinds and mixed wrappers derived from the index (65536, exhaustive in the thorough tier, strided in quick); random = proptest choice sequences -> graphs of 2..10 nodes with multi-edges and mixed wrappers (out-degree <= 2); aliases = every assignment of 8 target forms {{int32, alias j, Sequence<alias j>, Dictionary<string, alias j?>, Result<alias j, bool>, Result<bool, alias j>, Result<bool, Sequence<alias j>>, Sequence<Result<alias j?, string>>}} to <= 4 aliases ({ALIAS_TOTAL}; strided in quick); enum nodes carry a field-less enumerator before, between or after the ones with fields (sampled per node); inheritance = every base relation over <= 4 interfaces incl. self-loops ({INHERIT_TOTAL}). Oracle: SCC analysis; E032 <=> a node lies on a cycle, every on-cycle node named by a chain reconstructed from note spans, every chain a real closed path of written fields; alias / inheritance loops rejected, acyclic ones accepted. Non-trivial = >= 1 edge through a non-trivial wrapper or >= 2 nodes on a cycle (all alias / inheritance cases count)")
     }
     fn assumptions(&self) -> Vec<String> {
         vec![
@@ -571,7 +609,7 @@ impl Check for C05 {
                 cx.set_key(&(g.n, &g.is_enum, &g.edges));
                 graph_case(cx, g)
             }),
-            Family::enumerate("aliases", ALIAS_TOTAL, tier.pick(3, 1), alias_case),
+            Family::enumerate("aliases", ALIAS_TOTAL, tier.pick(7, 1), alias_case),
             Family::enumerate("inheritance", INHERIT_TOTAL, tier.pick(5, 1), inherit_case),
             Family::replay_only("direct", |cx, i| {
                 // regression inputs: "<cyclic|acyclic>\n<source>": cyclic must be rejected, acyclic accepted
